@@ -13,6 +13,8 @@ import (
 	"github.com/MinterTeam/mhub2/module/x/zzverif/vrt"
 )
 
+var zzFeeBound = zzPow255
+
 type zzState struct {
 	env      *ZZEnv
 	chain    types.ChainID
@@ -34,8 +36,8 @@ type zzStateOpts struct {
 func zzSteNamed(n string, chain types.ChainID, tok string, tid uint64, zeroFees bool) *types.SendToExternal {
 	fee, com := sdk.ZeroInt(), sdk.ZeroInt()
 	if !zeroFees {
-		fee = sdk.NewIntFromBigInt(vrt.IntRange("fee"+n, big.NewInt(0), zzPow255))
-		com = sdk.NewIntFromBigInt(vrt.IntRange("com"+n, big.NewInt(0), zzPow255))
+		fee = sdk.NewIntFromBigInt(vrt.IntRange("fee"+n, big.NewInt(0), zzFeeBound))
+		com = sdk.NewIntFromBigInt(vrt.IntRange("com"+n, big.NewInt(0), zzFeeBound))
 	}
 	amt := sdk.NewIntFromBigInt(vrt.IntRange("amt"+n, big.NewInt(0), zzPow255))
 	return &types.SendToExternal{
